@@ -71,7 +71,7 @@ def valid_case(case):
         if case['order'] not in ('fwd', 'rev', 'rot') or case['bdur'] < 0 or case['idur'] < 0:
             return False
         for k, v in (case.get('behave') or {}).items():
-            if v not in BEHAVIOURS:
+            if v not in BEHAVIOURS and v != 'excstop':
                 return False
         if case.get('mutate') and not (case['mutate']['mbs'] >= 1 and case['mutate']['at'] >= 0):
             return False
@@ -103,6 +103,14 @@ def own_batch(hist, c):
         if (c['key'], c['i']) in b['items'] and b.get('batcher', 0) == c.get('batcher', 0):
             return b
     return None
+
+
+def _is_outcome(obj, exp):
+    """obj is the outcome object exp - or, for a yielded StopIteration (which no coroutine can raise and no Future can
+    carry), a RuntimeError that names it as its cause, the way Python itself converts such a raise."""
+    if obj is exp:
+        return True
+    return isinstance(exp, StopIteration) and isinstance(obj, RuntimeError) and (obj.__cause__ is exp or obj.__context__ is exp)
 
 
 def judge_outcomes(hist, skip=lambda c: False, wellbehaved=False):
@@ -150,7 +158,7 @@ def judge_outcomes(hist, skip=lambda c: False, wellbehaved=False):
                     if kk == k and (m is None or i < m):
                         firsts.append(o)
                         break
-            same = any(obj is o for o in firsts)
+            same = any(_is_outcome(obj, o) for o in firsts)
             if not same:
                 shared_with = [o for o in callers if o['i'] in originals and o['key'] == k and o['outcome'] is not None
                                and o['outcome'][1] is obj and o.get('batcher', 0) == c.get('batcher', 0)]
@@ -166,7 +174,7 @@ def judge_outcomes(hist, skip=lambda c: False, wellbehaved=False):
         if idx is not None and (m is None or idx < m):
             exp = b['yields'][idx][1]
             if isinstance(exp, Exception):
-                if not (kind == 'exc' and obj is exp):
+                if not (kind == 'exc' and _is_outcome(obj, exp)):
                     out.append(V('wrong-outcome', f'{desc}: batch {b["id"]} yielded exception {exp!r}; caller ended with {kind} {obj!r}',
                                  'exception-returned' if (kind == 'ok' and obj is exp) else 'wrong-outcome:yielded-exc'))
             elif not (kind == 'ok' and obj is exp):
